@@ -165,7 +165,9 @@ def run(chk):
             except Exception: return None
             d = json.loads(o.serialize())
             routes = []
-            if cat == 'objects' or ver == '2.1': routes += [('parse(dict)', lambda: stix2.parse(dict(d), version=w)), ('parse(object)', lambda: stix2.parse(o, version=w)), ('parse(text)', lambda: stix2.parse(o.serialize(), version=w))]
+            if cat == 'objects' or ver == '2.1': routes += [('parse(dict, allow_custom)', lambda: stix2.parse(dict(d), version=w, allow_custom=True)), ('parse(text, allow_custom)', lambda: stix2.parse(o.serialize(), version=w, allow_custom=True)),
+                                                           ('MemoryStore(allow_custom).add', lambda: (lambda ms: (ms.add(dict(d), version=w), ms.get(d['id']))[1])(stix2.MemoryStore(allow_custom=True))),
+                                                           ('parse(dict)', lambda: stix2.parse(dict(d), version=w)), ('parse(object)', lambda: stix2.parse(o, version=w)), ('parse(text)', lambda: stix2.parse(o.serialize(), version=w))]
             if cat == 'observables':
                 from props import _objects as O2
                 routes += [('parse_observable(dict)', lambda: stix2.parse_observable(dict(d), _valid_refs=O2.refs_for(d), version=w)),
@@ -173,10 +175,10 @@ def run(chk):
             for rn, fn in routes:
                 try: r = fn()
                 except (stix2.exceptions.STIXError, ValueError, TypeError): continue
-                if isinstance(r, dict): continue
+                if isinstance(r, dict) or r is None: continue
                 if pkg_of(r) != w: return (f'named#{rn}', f'{label}: {rn} with version={w} returned {type(r).__module__}.{type(r).__name__}', {'label': label, 'version': w})
         chk.bounded('a named version decides the class, for every type and entry form', list(named_cases()), check_named, classify=lambda c: (c[1], c[5]),
-                    bound='every registered object and observable type of both versions (minimal form) x both named versions x parse of dictionary / object / text and parse_observable')
+                    bound='every registered object and observable type of both versions (minimal form) x both named versions x parse of dictionary / object / text (strict and with customisation allowed), a permissive MemoryStore, parse_observable')
         chk.bounded('library output of version V is recognised as V', list(lib_out()), check_out, classify=lambda c: c[1], bound='every registered object type of both versions and every 2.1 observable, minimal form')
     finally:
         shutil.rmtree(tmp, ignore_errors=True)
